@@ -219,6 +219,10 @@ pub fn load(corpus_dir: &Path, repo: &Path, thorough: bool, seed: u64) -> Corpus
         }
         let stem = p.file_stem().unwrap().to_str().unwrap().to_string();
         let family = stem.split('_').next().unwrap().to_string();
+        if family == "extras" && !cfg!(feature = "extras") {
+            // written for the grammar-extras configuration (vgen built with --features extras)
+            continue;
+        }
         raw.push(GrammarSrc { id: stem, family, text: std::fs::read_to_string(&p).unwrap() });
     }
     // the repository's own grammars
